@@ -745,6 +745,57 @@ pub fn run_scan(opts: &Opts) -> i32 {
         for h in hs {
             let _ = h.join();
         }
+        // the duel: one thread creates fresh keys (each exactly once), another deletes each as soon
+        // as it can; once a delete has succeeded the key is gone from BOTH indexes -- a read and a
+        // range query over just that key must not find it (a key deleted before the query began
+        // never appears), whatever the interleaving of the creation's two index insertions
+        {
+            let trials = opts.u64("duel", 3000);
+            let next = Arc::new(AtomicU64::new(0));
+            let deleted = Arc::new(AtomicU64::new(0));
+            let s2 = store.clone();
+            let (n2, d2) = (next.clone(), deleted.clone());
+            let deleter = std::thread::spawn(move || {
+                for i in 0..trials {
+                    let key = format!("rd{i:08}").into_bytes();
+                    let t0 = std::time::Instant::now();
+                    loop {
+                        if s2.delete(&key).is_ok() {
+                            break;
+                        }
+                        if t0.elapsed() > Duration::from_secs(20) {
+                            return;
+                        }
+                        if n2.load(Ordering::Acquire) <= i {
+                            std::hint::spin_loop();
+                        }
+                    }
+                    d2.store(i + 1, Ordering::Release);
+                }
+            });
+            for i in 0..trials {
+                let key = format!("rd{i:08}").into_bytes();
+                let _ = store.insert(&key, b"payload");
+                next.store(i + 1, Ordering::Release);
+                let t0 = std::time::Instant::now();
+                while deleted.load(Ordering::Acquire) <= i && t0.elapsed() < Duration::from_secs(20) {
+                    std::hint::spin_loop();
+                }
+                if deleted.load(Ordering::Acquire) <= i {
+                    *bad.lock().unwrap() = Some(format!("duel-delete-of-a-created-key-never-succeeded trial={i}"));
+                    break;
+                }
+                let got = store.get(&key).is_ok();
+                let mut hi = key.clone();
+                hi.push(0xff);
+                let ranged = store.range_query(&key, &hi, 10).map(|r| r.len()).unwrap_or(99);
+                if got || ranged != 0 {
+                    *bad.lock().unwrap() = Some(format!("a-key-deleted-before-the-query-began-appeared trial={i} get-finds-it={got} range-returns={ranged} (creation racing the delete)"));
+                    break;
+                }
+            }
+            let _ = deleter.join();
+        }
         // quiescent: the ordered and the hashed index hold the same keys
         let mut verdict = bad.lock().unwrap().clone().map_or("ok".to_string(), |b| format!("FAIL {b}"));
         if verdict == "ok" {
